@@ -596,3 +596,59 @@ package tally
 //@   ensures @uses_exactly_the_requested_bounds sameSpec(result.buckets, buckets)
 //@   ensures @storage_derived_from_its_spec storageWF(result)
 //@   ensures @quiet quiet()
+
+// ---------------------------------------------------------------------------
+// Scopes: names, tags, get-or-create (C04, C05, C06, C09)
+
+//@ pure method Sanitizer.Name
+//@ pure method Sanitizer.Key
+//@ pure method Sanitizer.Value
+
+//@ pred sanN(s *scope, n string) { pcall(Sanitizer.Name, s.sanitizer, n) }
+//@ pred fqn(s *scope, n string) { len(s.prefix) == 0 ? n : s.prefix + s.separator + n }
+//@ pred scopeWF(s *scope) { s != nil && s.sanitizer != nil && s.counters != nil && s.gauges != nil && s.timers != nil && s.histograms != nil && s.bucketCache != nil }
+
+//@ lock scope.cm self s protects counters, countersSlice
+//@   property C09, C05
+//@   inv @entries_non_nil s.counters != nil && (forall k string :: k in s.counters ==> s.counters[k] != nil)
+//@   guar @live_entries_never_replaced !s.closed ==> (forall k string :: old(k in s.counters) ==> k in s.counters && s.counters[k] == old(s.counters[k]))
+
+//@ lock scope.gm self s protects gauges, gaugesSlice
+//@   property C09, C05
+//@   inv @entries_non_nil s.gauges != nil && (forall k string :: k in s.gauges ==> s.gauges[k] != nil)
+//@   guar @live_entries_never_replaced !s.closed ==> (forall k string :: old(k in s.gauges) ==> k in s.gauges && s.gauges[k] == old(s.gauges[k]))
+
+//@ lock scope.tm self s protects timers
+//@   property C09, C05
+//@   inv @entries_non_nil s.timers != nil && (forall k string :: k in s.timers ==> s.timers[k] != nil)
+//@   guar @live_entries_never_replaced !s.closed ==> (forall k string :: old(k in s.timers) ==> k in s.timers && s.timers[k] == old(s.timers[k]))
+
+//@ lock scope.hm self s protects histograms, histogramsSlice
+//@   property C09, C05
+//@   inv @entries_non_nil s.histograms != nil && (forall k string :: k in s.histograms ==> s.histograms[k] != nil)
+//@   guar @live_entries_never_replaced !s.closed ==> (forall k string :: old(k in s.histograms) ==> k in s.histograms && s.histograms[k] == old(s.histograms[k]))
+
+//@ func (*scope).fullyQualifiedName
+//@   property C04
+//@   requires s != nil
+//@   ensures @prefix_separator_name result == fqn(s, name)
+//@   ensures @quiet quiet()
+
+//@ func (*scope).counter
+//@   property C09, C05
+//@   requires scopeWF(s)
+//@   acquires s.cm
+//@   ensures @found result1 ==> is(result0, *counter) && dyn(result0, *counter) != nil && sanitizedName in s.counters && dyn(result0, *counter) == s.counters[sanitizedName]
+//@   ensures @quiet quiet()
+
+//@ func (*scope).Counter
+//@   property C09, C05, C04, C06
+//@   emits
+//@   allocs
+//@   requires scopeWF(s)
+//@   acquires s.cm
+//@   modifies s.counters, s.countersSlice
+//@   ensures @registered_object_returned is(result, *counter) && dyn(result, *counter) != nil && sanN(s, name) in s.counters && dyn(result, *counter) == s.counters[sanN(s, name)]
+//@   ensures @at_most_one_allocation len(calls) <= old(len(calls)) + 1 && (forall j int :: 0 <= j && j < old(len(calls)) ==> calls[j] == old(calls[j]))
+//@   ensures @allocated_under_scope_name_and_tags len(calls) == old(len(calls)) + 1 ==> s.cachedReporter != nil && calls[old(len(calls))] == ev(CachedStatsReporter.AllocateCounter, s.cachedReporter, fqn(s, sanN(s, name)), s.tags) && same(dyn(result, *counter).cachedCount, ires(old(len(calls))))
+//@   ensures @no_cached_reporter_no_calls s.cachedReporter == nil ==> quiet()
